@@ -776,4 +776,56 @@ theorem consistent_index (F : Fitted γ) (hF : Consistent F) :
 
 end
 
+
+/-! ### the sparse row -/
+
+theorem find_of_mem_sorted (l : List (Nat × Nat)) (h : (l.map (·.1)).Pairwise (· < ·)) (j c : Nat)
+    (hm : (j, c) ∈ l) : l.find? (fun p => p.1 == j) = some (j, c) := by
+  induction l with
+  | nil => simp at hm
+  | cons x t ih =>
+    rw [List.map_cons, List.pairwise_cons] at h
+    rcases List.mem_cons.mp hm with rfl | hm'
+    · simp
+    · have : x.1 < j := h.1 j (List.mem_map.mpr ⟨(j, c), hm', rfl⟩)
+      have hne : (x.1 == j) = false := by simp; omega
+      rw [List.find?_cons, hne]; exact ih h.2 hm'
+
+theorem mem_sparseRow (row : List Nat) (j c : Nat) :
+    (j, c) ∈ sparseRow row ↔ 0 < c ∧ row[j]? = some c := by
+  simp only [sparseRow, List.mem_map, List.mem_filter, Prod.mk.injEq, Prod.exists]
+  constructor
+  · rintro ⟨a, i, ⟨hm, hp⟩, rfl, rfl⟩
+    exact ⟨by simpa using hp, List.mem_zipIdx_iff_getElem?.mp hm⟩
+  · rintro ⟨hc, hj⟩
+    exact ⟨c, j, ⟨List.mem_zipIdx_iff_getElem?.mpr hj, by simpa using hc⟩, rfl, rfl⟩
+
+theorem sparseRow_sorted (row : List Nat) : ((sparseRow row).map (·.1)).Pairwise (· < ·) := by
+  have h1 : (sparseRow row).map (·.1) = (row.zipIdx.filter fun p => decide (p.1 > 0)).map (·.2) := by
+    simp [sparseRow, List.map_map, Function.comp_def]
+  rw [h1]
+  have h2 : (row.zipIdx.map (·.2)).Pairwise (· < ·) := by
+    rw [List.zipIdx_map_snd]
+    exact List.pairwise_lt_range'
+  exact h2.sublist ((List.filter_sublist (l := row.zipIdx)).map _)
+
+theorem sparseRow_length (row : List Nat) : (sparseRow row).length = row.countP (fun c => decide (0 < c)) := by
+  unfold sparseRow
+  rw [List.length_map, List.countP_eq_length_filter]
+  have h : (row.zipIdx.filter fun p => decide (p.1 > 0)).map (·.1) = row.filter fun c => decide (0 < c) := by
+    have := List.filter_map (f := fun p : Nat × Nat => p.1) (p := fun c => decide (0 < c)) (l := row.zipIdx)
+    rw [List.zipIdx_map_fst] at this
+    rw [this]; rfl
+  rw [← h, List.length_map]
+
+theorem getElem?_map_count {γ : Type} [DecidableEq γ] (vec grams : List γ) (j c : Nat) :
+    (vec.map fun w => grams.count w)[j]? = some c ↔ ∃ h : j < vec.length, grams.count vec[j] = c := by
+  rw [List.getElem?_eq_some_iff]
+  constructor
+  · rintro ⟨h, he⟩
+    have h' : j < vec.length := by simpa using h
+    exact ⟨h', by simpa using he⟩
+  · rintro ⟨h, he⟩
+    exact ⟨by simpa using h, by simpa using he⟩
+
 end LinfaSpec.Vectorizer
